@@ -18,7 +18,7 @@ CFG = dict(
                "(Model/HeightsOld.lean) with the three former refutation witnesses as regression lemmas (old: defect; current: closed). The model is tied "
                "to the code by regenerated constants / call-site / call-order / operator facts and by running the model and the real controller + runner "
                "+ Validator.Start + ibft/storage on Badger on the same histories (every step: controller height, container incl. commit containers, "
-               "runner state, highest record, historical records).",
+               "runner state, highest record, historical records). Key layer (Ssv/Props/C15Keys.lean): for ALL store prefixes, identifiers of one length and 64-bit heights no two (store, identifier, highest | height) entries share a database key, and CleanAllInstances removes exactly one identifier's entries; tied by engine `storekey` (real store on a real in-memory Badger DB behind a recording wrapper, read-back oracle).",
     level_note="Trusted: Lean kernel (axioms propext/Classical.choice/Quot.sound only), the go/ast fact extractor, the harness (message construction "
                "with the spec test kit, canonical rendering of real objects, the `ok` fact = real ValidateDecided/BaseMsgValidation verdict), the "
                "in-package shim harness/inpkg/protocol/v2/ssv/runner/zz_verif_heights.go (forwards to unexported baseStartNewDuty/decide/"
@@ -27,9 +27,11 @@ CFG = dict(
                "storage errors (Badger assumed atomic and durable), non-committee validators, CleanAllInstances other than at case boundaries.",
     technique="Lean 4 proof (invariants by induction over op histories; refutations by evaluation of concrete witnesses) + regenerated "
               "constants/call-site/operator facts + differential run against the real controller, runner, validator start-up and store",
-    lean=["Ssv.Props.C15"],
+    lean=["Ssv.Props.C15", "Ssv.Props.C15Keys"],
     engines=[dict(harness="heights", driver="m_heights", case_delim="reset", n_quick=110, n_thorough=1500, thorough_seeds=4,
-                  n_search=1500, search_seeds=4)],
+                  n_search=1500, search_seeds=4),
+             # key layer of the decided-instance store: real ibft/storage store on a real in-memory Badger DB behind a recording wrapper
+             dict(harness="storekey", driver="m_storekey", case_delim="case", n_quick=4000, n_thorough=200000, thorough_seeds=2, n_search=20000, search_seeds=2)],
     rule="seeded generator of cases (reset = fresh store + new process, full or light): 6..28 random ops after an optional scripted opening "
          "(late decided message for a past height + restart + the height again; certificates of several rounds with compaction/restart in "
          "between); ops: start s | begin s | decide | decided h r root signers ok via [sf=1: the store fails the first Save* call of this op] | "
